@@ -26,10 +26,7 @@ type phiInfo struct {
 	byBlock map[*ssa.BasicBlock][]*ssa.Phi
 }
 
-var (
-	phiInfos  = map[*ssa.Function]*phiInfo{}
-	bindTable = map[string]binds{"": nil}
-)
+var phiInfos = map[*ssa.Function]*phiInfo{}
 
 // StoredHere resolves a load of a local cell (a named result or a variable
 // that a closure captures) to the value stored into the same cell earlier in
@@ -127,9 +124,21 @@ func phiInfoOf(fn *ssa.Function) *phiInfo {
 	return pi
 }
 
-func bindKey(fn *ssa.Function, bd binds) string {
+var (
+	bindIDs  = map[string]int{"": 0}
+	bindSets = []binds{nil}
+	stepMemo = map[stepKey]int{}
+)
+
+type stepKey struct {
+	id       int
+	from, to *ssa.BasicBlock
+}
+
+// bindID interns a set of bindings.
+func bindID(fn *ssa.Function, bd binds) int {
 	if len(bd) == 0 {
-		return ""
+		return 0
 	}
 	pi := phiInfoOf(fn)
 	parts := make([]string, 0, len(bd))
@@ -138,24 +147,31 @@ func bindKey(fn *ssa.Function, bd binds) string {
 	}
 	sort.Strings(parts)
 	k := fmt.Sprintf("%p|", fn) + strings.Join(parts, ",")
-	if _, ok := bindTable[k]; !ok {
-		if len(bindTable) > 200000 {
-			return "" // budget exhausted: forget (sound: more paths)
-		}
-		bindTable[k] = bd
+	if id, ok := bindIDs[k]; ok {
+		return id
 	}
-	return k
+	if len(bindSets) > 200000 {
+		return 0 // budget exhausted: forget (sound: more paths)
+	}
+	id := len(bindSets)
+	bindSets = append(bindSets, bd)
+	bindIDs[k] = id
+	return id
 }
 
 // stepBinds returns the bindings after control passes from block from to to.
-func stepBinds(bk string, from, to *ssa.BasicBlock) string {
+func stepBinds(bk int, from, to *ssa.BasicBlock) int {
 	fn := to.Parent()
 	pi := phiInfoOf(fn)
 	phis := pi.byBlock[to]
 	if len(phis) == 0 {
 		return bk
 	}
-	old := bindTable[bk]
+	sk := stepKey{bk, from, to}
+	if id, ok := stepMemo[sk]; ok {
+		return id
+	}
+	old := bindSets[bk]
 	nb := make(binds, len(old)+len(phis))
 	for k, v := range old {
 		nb[k] = v
@@ -174,7 +190,9 @@ func stepBinds(bk string, from, to *ssa.BasicBlock) string {
 			delete(nb, phi)
 		}
 	}
-	return bindKey(fn, nb)
+	id := bindID(fn, nb)
+	stepMemo[sk] = id
+	return id
 }
 
 // evalCondBinds evaluates a branch condition under the bindings, if they decide it.
